@@ -192,9 +192,19 @@ func flatWithPreds(g *xgen.G, rt *rapid.T, base xref.NodeSet) *xast.Path {
 
 func TestC12Flat(t *testing.T) {
 	runRapid(t, uC12Flat, func(rt *rapid.T) {
-		doc := xgen.Doc(rt, c12Doc())
+		o := c12Doc()
+		prefixed := rapid.IntRange(0, 3).Draw(rt, "prefixed") == 0
+		if prefixed {
+			o.NS = &xgen.NSOpts{Prefixes: []string{"", "p", "p", "q"}, URIs: []string{"", "u"}}
+			o.ElNames = []string{"a", "b"}
+		}
+		doc := xgen.Doc(rt, o)
 		ctx := xgen.Context(rt, doc, 4)
 		g := xgen.NewG(rt, doc)
+		if prefixed {
+			g.ElNames = o.ElNames
+			g.Prefixes = []string{"", "p", "q"}
+		}
 		p := flatWithPreds(g, rt, xref.NodeSet{ctx})
 		l := &harness.Live{Property: "C12", Check: "C12/flat-order", Doc: doc, Ctx: ctx, AST: p, Expr: xast.Render(p), Flavour: flavourOf(rt)}
 		ids, f := oracleC12Flat(l)
@@ -205,6 +215,9 @@ func TestC12Flat(t *testing.T) {
 			harness.Report(rt, uC12Flat, l, f)
 		}
 		labels := append(shapeLabels(p), sizeLabel(len(ids)))
+		if prefixed {
+			labels = append(labels, "doc:prefixed-names")
+		}
 		uC12Flat.Case(harness.Mix(doc.Hash(), uint64(ctx.ID), harness.Hash64(l.Expr)), len(ids) >= 2, labels, func() interface{} {
 			return l.Sample("sequence", describe(doc, ids))
 		})
